@@ -482,7 +482,7 @@ func (e *Env) index(v, i Val) Val {
 		hn := elemHeapName(et)
 		es := g.sortOf(et)
 		h := g.heap(e.st, hn, "(Array Int (Array Int "+es+"))")
-		return Val{T: sx("select", sx("select", h, sx("s-arr", v.T)), sx("+", sx("s-off", v.T), i.T)), S: es, G: et}
+		return Val{T: sx("select", sx("select", h, sx("s-arr", v.T)), sx("idx", sx("s-off", v.T), i.T)), S: es, G: et}
 	case strings.HasPrefix(v.S, "(Array Int "):
 		es := strings.TrimSuffix(strings.TrimPrefix(v.S, "(Array Int "), ")")
 		var et types.Type
@@ -553,6 +553,11 @@ func (e *Env) binary(x *EBinary) Val {
 		if a.S != "Int" || b.S != "Int" {
 			e.fail("arithmetic on %s/%s in %s", a.S, b.S, exprString(x))
 		}
+		if x.Op == "*" && !isNumeral(a.T) && !isNumeral(b.T) {
+			// symbolic * symbolic: uninterpreted product with a few axioms (prelude)
+			// keeps the goals out of nonlinear arithmetic
+			return Val{T: sx("imul", a.T, b.T), S: "Int"}
+		}
 		return Val{T: sx(x.Op, a.T, b.T), S: "Int"}
 	case "/":
 		return Val{T: sx("div", a.T, b.T), S: "Int"}
@@ -561,6 +566,21 @@ func (e *Env) binary(x *EBinary) Val {
 	}
 	e.fail("operator %s", x.Op)
 	return Val{}
+}
+
+func isNumeral(t string) bool {
+	if t == "" {
+		return false
+	}
+	if strings.HasPrefix(t, "(- ") && strings.HasSuffix(t, ")") {
+		t = t[3 : len(t)-1]
+	}
+	for i := 0; i < len(t); i++ {
+		if t[i] < '0' || t[i] > '9' {
+			return false
+		}
+	}
+	return true
 }
 
 func isNilExpr(x Expr) bool {
@@ -608,13 +628,27 @@ func (e *Env) call(x *ECall) Val {
 	case "fresh":
 		v := arg(0)
 		t := v.T
-		if v.S == "Slice" {
+		switch v.S {
+		case "Slice":
 			t = sx("s-arr", v.T)
+		case "Iface":
+			t = sx("i-val", v.T)
 		}
 		return Val{T: sx(">", t, e.old.alloc), S: "Bool"}
 	case "allocated":
 		v := arg(0)
-		return Val{T: sx("<=", v.T, e.st.alloc), S: "Bool"}
+		t := v.T
+		switch v.S {
+		case "Slice":
+			t = sx("s-arr", v.T)
+		case "Iface":
+			t = sx("i-val", v.T)
+		}
+		return Val{T: sx("<=", t, e.st.alloc), S: "Bool"}
+	case "bvheap":
+		return Val{T: g.heap(e.st, "BV", "(Array Int Int)"), S: "(Array Int Int)"}
+	case "byteheap":
+		return Val{T: g.heap(e.st, "El.uint8", "(Array Int (Array Int Int))"), S: "(Array Int (Array Int Int))"}
 	case "istype":
 		v := arg(0)
 		tn := x.Args[1].(*EStr).V
@@ -846,7 +880,7 @@ func (e *Env) modLocs(x Expr) []modLoc {
 		et := v.G.Underlying().(*types.Slice).Elem()
 		ml := modLoc{heap: elemHeapName(et), base: sx("s-arr", v.T), sort: g.sortOf(et), elem: true, g: et}
 		if id, ok := x.I.(*EIdent); !ok || id.Name != "*" {
-			ml.idx = sx("+", sx("s-off", v.T), e.tr(x.I).T)
+			ml.idx = sx("idx", sx("s-off", v.T), e.tr(x.I).T)
 		}
 		return []modLoc{ml}
 	}
@@ -1369,7 +1403,7 @@ func (g *Gen) registerTag(tag, alloc string) {
 	g.tagAlloc[tag] = alloc
 	for k := range g.heapSort {
 		if t, ok := g.st.heaps[k]; ok && strings.HasSuffix(t, "@"+tag+"|") {
-			g.verAlloc[t] = alloc
+			g.setVerAlloc(k, t, alloc)
 		}
 	}
 }
@@ -1517,18 +1551,26 @@ func (g *Gen) appendOp(c *ssa.CallCommon) Val {
 	if elems, ok := g.constVarargs(c.Args[1], h); ok {
 		A = old
 		for i, e := range elems {
-			A = sx("store", A, sx("+", soff, slen, fmt.Sprint(i)), e)
+			A = sx("store", A, sx("idx", soff, sx("+", slen, fmt.Sprint(i))), e)
 		}
 		A = g.define("appA", "(Array Int "+es+")", A)
 	} else {
 		A = g.declConst(g.fresh("appA"), "(Array Int "+es+")")
+		// constants (not macro-expanded terms) inside the patterns: z3 rejects ite in patterns
+		base := g.declConst(g.fresh("appbase"), "Int")
+		g.assumeRaw(sx("=", base, sx("+", soff, slen)))
 		if !srcIsString {
-			src := sx("select", h, sx("s-arr", t.T))
-			g.assume(fmt.Sprintf("(forall ((k Int)) (! (=> (and (<= 0 k) (< k %s)) (= (select %s (+ %s %s k)) (select %s (+ %s k)))) :pattern ((select %s (+ %s %s k)))))",
-				n, A, soff, slen, src, sx("s-off", t.T), A, soff, slen))
+			srcA := g.declConst(g.fresh("appsrc"), "(Array Int "+es+")")
+			g.assumeRaw(sx("=", srcA, sx("select", h, sx("s-arr", t.T))))
+			toff := g.declConst(g.fresh("apptoff"), "Int")
+			g.assumeRaw(sx("=", toff, sx("s-off", t.T)))
+			g.assume(fmt.Sprintf("(forall ((p Int)) (! (=> (and (<= %s p) (< p (+ %s %s))) (= (select %s p) (select %s (idx %s (- p %s))))) :pattern ((select %s p))))",
+				base, base, n, A, srcA, toff, base, A))
 		}
-		g.assume(fmt.Sprintf("(forall ((k Int)) (! (=> (or (< k (+ %s %s)) (>= k (+ %s %s))) (= (select %s k) (select %s k))) :pattern ((select %s k))))",
-			soff, slen, soff, newLen, A, old, A))
+		oldA := g.declConst(g.fresh("appold"), "(Array Int "+es+")")
+		g.assumeRaw(sx("=", oldA, old))
+		g.assume(fmt.Sprintf("(forall ((k Int)) (! (=> (or (< k %s) (>= k (+ %s %s))) (= (select %s k) (select %s k))) :pattern ((select %s k))))",
+			base, base, n, A, oldA, A))
 	}
 	if hn == "El.uint8" && !srcIsString {
 		// ghost: the abstract byte string of the result is the concatenation
@@ -1577,12 +1619,17 @@ func (g *Gen) copyOp(c *ssa.CallCommon) Val {
 	}
 	n := g.define("copyn", "Int", sx("ite", sx("<", sx("s-len", d.T), sl), sx("s-len", d.T), sl))
 	A := g.declConst(g.fresh("copyA"), "(Array Int "+es+")")
-	old := sx("select", h, sx("s-arr", d.T))
-	doff := sx("s-off", d.T)
+	old := g.declConst(g.fresh("copyold"), "(Array Int "+es+")")
+	g.assumeRaw(sx("=", old, sx("select", h, sx("s-arr", d.T))))
+	doff := g.declConst(g.fresh("copydoff"), "Int")
+	g.assumeRaw(sx("=", doff, sx("s-off", d.T)))
 	if s.S == "Slice" {
-		src := sx("select", h, sx("s-arr", s.T))
-		g.assume(fmt.Sprintf("(forall ((k Int)) (! (=> (and (<= 0 k) (< k %s)) (= (select %s (+ %s k)) (select %s (+ %s k)))) :pattern ((select %s (+ %s k)))))",
-			n, A, doff, src, sx("s-off", s.T), A, doff))
+		src := g.declConst(g.fresh("copysrc"), "(Array Int "+es+")")
+		g.assumeRaw(sx("=", src, sx("select", h, sx("s-arr", s.T))))
+		soffc := g.declConst(g.fresh("copysoff"), "Int")
+		g.assumeRaw(sx("=", soffc, sx("s-off", s.T)))
+		g.assume(fmt.Sprintf("(forall ((p Int)) (! (=> (and (<= %s p) (< p (+ %s %s))) (= (select %s p) (select %s (idx %s (- p %s))))) :pattern ((select %s p))))",
+			doff, doff, n, A, src, soffc, doff, A))
 	}
 	g.assume(fmt.Sprintf("(forall ((k Int)) (! (=> (or (< k %s) (>= k (+ %s %s))) (= (select %s k) (select %s k))) :pattern ((select %s k))))",
 		doff, doff, n, A, old, A))
